@@ -32,7 +32,7 @@
    comments and processing instructions only; [scattered pieces gaps tail] the pieces of a text with the noise
    [gaps] before each piece and [tail] at the end; [norm c] the child list c with every comment and processing
    instruction removed and adjacent text nodes glued, at every depth. *)
-From Cam Require Import Outcome GenApiParse P_C17 P_C17b P_C17c.
+From Cam Require Import Outcome GenApiParse P_C17 P_C17b P_C17c P_C17d.
 From Coq Require Import Permutation.
 
 (* decimal and 0x / 0X hexadecimal literals (both digit cases) of every value of the type convert back to the
@@ -248,3 +248,38 @@ Theorem C17_formula_example :
                   | _ => ([], -1, false, -1, O) end) (pr_ret p) = [([86], 2, true, 10, 2%nat)].
 Proof. exact formula_example. Qed.
 Print Assumptions C17_formula_example.
+
+(* the literal / reference decision at every ImmOrPNode site (pMin / pMax / pInc / pValueIndexed / pValueDefault /
+   pValue / pLength / pAddress / pCommandValue ...), whatever the tag and attributes: a legal node name starting
+   with a letter is a reference to that name at integer sites; at float sites unless it is spelled exactly INF or
+   NaN (so inf, Infinity, nan, NAN, e5 ... are references); at boolean sites unless it is Yes / No / true / false *)
+Theorem C17_reference_decision : forall name tag attrs k, ident name ->
+  p_imm_i64 (Elem tag attrs (txt name) :: k) = Ok (PNode name, k) /\
+  (str_eqb name L_INF = false -> str_eqb name L_NaN = false ->
+   p_imm_f64 (Elem tag attrs (txt name) :: k) = Ok (PNode name, k)) /\
+  (convert_to_bool_opt name = None -> p_imm_bool (Elem tag attrs (txt name) :: k) = Ok (PNode name, k)).
+Proof. exact reference_decision. Qed.
+Print Assumptions C17_reference_decision.
+
+(* ... instantiated on the names a sloppy "is it a number?" test would misread (inf, Inf, INFINITY, Infinity,
+   infinity, nan, NAN, Nan, NaNx, INFx, e5, E10, x0, xFF, OxFF, True, False, Yes, No, true, false, On, Off): each is a
+   reference at the integer and float sites, and at the boolean site unless it is one of the four boolean words *)
+Theorem C17_reference_decision_pool :
+  List.forallb (fun n => is_ref (p_imm_i64 [Elem T_pMin [] [Text n]]) n &&
+                         is_ref (p_imm_f64 [Elem T_pMax [] [Text n]]) n &&
+                         (mem_str n bool_words || is_ref (p_imm_bool [Elem T_pValue [] [Text n]]) n)) name_pool = true.
+Proof. exact pool_decision. Qed.
+Print Assumptions C17_reference_decision_pool.
+
+(* KNOWN finding (the code decides by the text, not by the tag): a node legally named INF / NaN referenced from a
+   float site, or Yes / No / true / false from a Boolean pValue, is read as the literal; a name starting with an
+   underscore is read as a numeral (panic) *)
+Theorem C17_literal_named_nodes_refuted :
+  p_imm_f64 [Elem T_pMax [] [Text L_INF]] = Ok (Imm FvInf, []) /\
+  p_imm_f64 [Elem T_pMax [] [Text L_NaN]] = Ok (Imm (FvText L_NaN), []) /\
+  p_imm_bool [Elem T_pValue [] [Text L_Yes]] = Ok (Imm true, []) /\
+  p_imm_bool [Elem T_pValue [] [Text L_false]] = Ok (Imm false, []) /\
+  p_imm_i64 [Elem T_pMin [] [Text [95; 120]]] = Panic /\
+  p_imm_f64 [Elem T_pMin [] [Text [95; 120]]] = Ok (Imm (FvText [95; 120]), []).
+Proof. exact literal_named_nodes_refuted. Qed.
+Print Assumptions C17_literal_named_nodes_refuted.
